@@ -1,7 +1,6 @@
 package c12
 
 import (
-	"verif/engine"
 	"crypto/ecdsa"
 	"crypto/elliptic"
 	"encoding/asn1"
@@ -9,6 +8,7 @@ import (
 	"io"
 	"math/big"
 	"sync"
+	"verif/engine"
 
 	"github.com/emmansun/gmsm/ecdh"
 	"github.com/emmansun/gmsm/sm2"
@@ -498,7 +498,6 @@ func sm2Ops() []*opDef {
 	return ops
 }
 
-
 // newGrpA5 is the SM2 alphabet plus the two smallest scalars (and the largest below n) that the encryption of the
 // one-byte message encMsg1 to the fixed recipient must discard in step A5 (all-zero mask): found by search with the
 // reference, deterministic.
@@ -518,7 +517,6 @@ func newGrpA5() *grp {
 	}
 	return g
 }
-
 
 // ---------------------------------------------------------------------------------------------
 // failed repeat on a protocol object: after a successful InitKeyExchange / RespondKeyExchange the same call is made
